@@ -264,7 +264,7 @@ impl Cpu {
         self.cr3 & hwwalk::ADDR
     }
 
-    fn fault(&mut self, vec: u8, why: impl Into<String>) {
+    pub fn fault(&mut self, vec: u8, why: impl Into<String>) {
         self.faults += 1;
         self.trace.push(Ev::Fault { vec, why: why.into() });
     }
